@@ -10,6 +10,13 @@ seed), each driven by its own virtual tuner — differently for the two twins. O
 re-run under restricted perturbation classes to attribute it (global numpy / python random / decoys /
 independent of all three).
 
+Hash randomisation for the model-free searchers: besides the ``vt_modelfree`` batches (every engine-A kind, every
+domain kind forced in turn) a ``vt_hashmatrix`` batch runs every model-free kind incl. directly created RandomSearcher
+and GridSearcher (shuffle_config False and True) three times per child on spaces made mostly of string-valued
+categoricals, with unusual-but-legal domains forced: choice / ordinal with duplicated values (string and int), a
+single-value choice, float and bool categories (mixed types, and duplicates in nearest-neighbour ordinals, are
+rejected by the library).
+
 Engine S (in process, shared argument objects): direct RandomSearcher / GridSearcher instances (behind a small
 scheduler-API adapter) and FIFO / Hyperband / synchronous Hyperband / PBT / REA schedulers are built twice from the
 SAME argument objects (config_space dict, points_to_evaluate list, search_options dict incl. the
@@ -55,7 +62,8 @@ LEVEL = "exploration"
 RULE = (
     "engine A: case = scheduler kind (FIFO random / FIFO grid / Hyperband stopping, promotion, pasha, cost_promotion, "
     "rush_stopping, rush_promotion / synchronous Hyperband / DEHB / PBT / REA / MOREA) x constructor arguments x config space x "
-    "config space drawn from all 17 domain kinds (uniform, loguniform, reverseloguniform, quniform, qloguniform, randint, "
+    "config space drawn from all 23 domain kinds (6 unusual categoricals: duplicated string / int values, single value, "
+    "ordinal with duplicates, float and bool categories; and uniform, loguniform, reverseloguniform, quniform, qloguniform, randint, "
     "lograndint, qrandint, qlograndint, choice, ordinal equal/nn, logordinal, finrange / logfinrange with and without "
     "cast_int; one kind forced per case in turn) x metric table x 1-8 workers x arrival policy x failure plan x perturbation stream (numpy global, python global, decoy "
     "schedulers; different before each twin); distinct = digest of (kind, sequence of (event type, start/resume/none, "
@@ -80,7 +88,7 @@ ASSUMPTIONS = [
     "solo reference cannot see state that is created at import time",
     "master seeds cover 0, 1, 2, 3, 7, 2**31-2, 2**31-1 (the documented upper bound of random_seed for schedulers) and "
     "2**32-1 for directly created searchers",
-    "configuration spaces draw from all 17 domain kinds; quantized domains use a q that divides both bounds and exactly "
+    "configuration spaces draw from all 23 domain kinds; quantized domains use a q that divides both bounds and exactly "
     "representable values, ordinal nn / logordinal have >= 2 categories, integer finite ranges have distinct members "
     "(so the open C07 / C06 findings about such domains do not interfere); dehb and fifo_grid never call Domain.sample "
     "and are not counted in domain_kind_in_twin_spaces",
